@@ -74,12 +74,12 @@ def insertSortedItem (x : ListItem × Int) : List (ListItem × Int) → List (Li
 def ordered (l : InkList) : List (ListItem × Int) :=
   l.items.foldl (fun acc x => insertSortedItem x acc) []
 
-/-- `get_origin_names`; `none` = the Rust panic on an item without origin. -/
+/-- `get_origin_names`: the origin name of every item (an item without origin contributes
+    nothing); the initial origin names for an empty list.  Never `none` (kept as an `Option`
+    for the callers that were written against the panicking version). -/
 def originNames (l : InkList) : Option (List String) :=
   if l.items.isEmpty then some l.initialOrigins
-  else if l.items.all (fun kv => kv.1.origin.isSome) then
-    some (l.items.map (fun kv => kv.1.origin.getD ""))
-  else none
+  else some (l.items.filterMap (fun kv => kv.1.origin))
 
 /-- `union` -/
 def union (a b : InkList) : InkList :=
